@@ -12,7 +12,7 @@ PROPS = {
         "claimed": True,
         "title": "Send hands over exactly the requested amount, fees included when asked",
         "lean": ["Gonuts.Props.C18", "Gonuts.Tie.Consts"],
-        "streams": ["arith"],
+        "streams": ["arith", "select"],
         "level": "proof",
         "technique": "Lean 4 theorems over Model.Select/Model.Amount (UInt64 semantics) + differential correspondence with the real wallet selection code",
         "design_ref": "DESIGN.md §5 C18",
